@@ -39,6 +39,11 @@ func movesGen(r *common.Rng, n int, shard int, out *common.Out) {
 					special = true
 				}
 			}
+			// C02 is stated for the range the byte counters can represent (ply and half-move clock below 255):
+			// a position at the edge would make the successor's printed counters wrap, which is not a violation
+			if p.Ply >= 255 || p.HalfMoveClock >= 255 {
+				return cnt < n
+			}
 			if special && r.Chance(1, 2) || r.Chance(1, 6) {
 				out.Line("%s", p.ToFen())
 				cnt++
